@@ -124,8 +124,12 @@ Definition absent (v : cval) : bool :=
 (* the callback handed to ReplaceAllContent.  cfg = Configure.Get (VNull = nil).
      spExp := strings.SplitN(exp, ":", 2); expVal := Get(spExp[0])
      if absent: if a non-empty default exists, expVal = ParseAny(default) (error -> error)
-     if expVal == nil return ""; return FormatAny(expVal) *)
-Definition resolve (cfg : bytes -> cval) (exp : bytes) : res bytes :=
+     if expVal == nil return ""
+     if expVal is a float64 return FormatFloat(expVal, 'f', -1, 64)          // repair D-C17g
+     return FormatAny(expVal)
+   [fx] selects the variant (Strconv.format_cfg): true = the repaired callback (fixes/D-C17g.diff), false = the
+   unrepaired one, which splices FormatAny's text for every value (1e+06 for the float64 1000000). *)
+Definition resolve (fx : bool) (cfg : bytes -> cval) (exp : bytes) : res bytes :=
   let (key, dflt) := split_first b_colon exp in
   let v := cfg key in
   rbind (if absent v then
@@ -134,11 +138,11 @@ Definition resolve (cfg : bytes -> cval) (exp : bytes) : res bytes :=
            | _ => Ok v
            end
          else Ok v)
-        (fun v' => match v' with VNull => Ok [] | _ => format_any v' end).
+        (fun v' => match v' with VNull => Ok [] | _ => format_cfg fx v' end).
 
 (* the ${} processor on one property: TagStr -> TagVal (no match: TagVal stays TagStr) *)
-Definition quote_stage (cfg : bytes -> cval) (budget : option nat) (fuel : nat) (tagstr : bytes) : outcome :=
-  replace_all_content b_dollar (resolve cfg) budget fuel tagstr.
+Definition quote_stage (fx : bool) (cfg : bytes -> cval) (budget : option nat) (fuel : nat) (tagstr : bytes) : outcome :=
+  replace_all_content b_dollar (resolve fx cfg) budget fuel tagstr.
 
 (* configurations given as a table path -> value *)
 Definition cfg_of (tbl : list (bytes * cval)) (key : bytes) : cval :=
